@@ -5,6 +5,10 @@
 #include <cstdlib>
 #include <new>
 #include <unistd.h>
+#include <cerrno>
+#include <cstring>
+#include <sys/syscall.h>
+#include <sys/uio.h>
 
 namespace sim {
 AllocSeam g_alloc;
@@ -21,6 +25,26 @@ void clock_arm(uint64_t budget) {
     g_clock.seen_token = g_clock.progress_token;
 }
 void clock_disarm() { g_clock.budget = 0; }
+SysSeam g_sys;
+void sys_arm(const char *path, long enospc_after, long read_eio_after, bool close_fails) {
+    g_sys = SysSeam();
+    strncpy(g_sys.path, path, sizeof g_sys.path - 1);
+    g_sys.enospc_after = enospc_after; g_sys.read_eio_after = read_eio_after; g_sys.close_fails = close_fails;
+    g_sys.active = true;
+}
+void sys_disarm() { g_sys.active = false; g_sys.fd_cache = -1; }
+static bool sys_is_target(int fd) {
+    if (!g_sys.active || fd < 3) return false;
+    if (fd == g_sys.fd_cache) return true;
+    char link[64], buf[300];
+    snprintf(link, sizeof link, "/proc/self/fd/%d", fd);
+    long n = syscall(SYS_readlink, link, buf, sizeof buf - 1);
+    if (n <= 0) return false;
+    buf[n] = 0;
+    if (strcmp(buf, g_sys.path) != 0) return false;
+    g_sys.fd_cache = fd;
+    return true;
+}
 }  // namespace sim
 
 using sim::g_alloc;
@@ -106,3 +130,53 @@ extern "C" __attribute__((used, visibility("default"))) const char *__asan_defau
 extern "C" __attribute__((used, visibility("default"))) const char *__ubsan_default_options() {
     return "exitcode=77:print_stacktrace=1:halt_on_error=1";
 }
+
+#ifndef OVMSIM_VARIANT_PLAIN
+// ---- syscall seam (path overloads)
+extern "C" ssize_t write(int fd, const void *buf, size_t n) {
+    using namespace sim;
+    if (sys_is_target(fd) && g_sys.enospc_after >= 0) {
+        long room = g_sys.enospc_after - g_sys.written;
+        if (room <= 0) { ++g_sys.fired_enospc; errno = ENOSPC; return -1; }
+        if ((long)n > room) { n = (size_t)room; ++g_sys.short_writes; }
+    }
+    long r = syscall(SYS_write, fd, buf, n);
+    if (r > 0 && sys_is_target(fd)) g_sys.written += r;
+    return r;
+}
+extern "C" ssize_t writev(int fd, const struct iovec *iov, int cnt) {
+    using namespace sim;
+    if (sys_is_target(fd) && g_sys.enospc_after >= 0) {
+        // deliver piecewise through write() so that the budget applies byte-exactly
+        ssize_t total = 0;
+        for (int i = 0; i < cnt; ++i) {
+            ssize_t r = write(fd, iov[i].iov_base, iov[i].iov_len);
+            if (r < 0) return total > 0 ? total : -1;
+            total += r;
+            if ((size_t)r < iov[i].iov_len) break;
+        }
+        return total;
+    }
+    long r = syscall(SYS_writev, fd, iov, cnt);
+    if (r > 0 && sys_is_target(fd)) g_sys.written += r;
+    return r;
+}
+extern "C" ssize_t read(int fd, void *buf, size_t n) {
+    using namespace sim;
+    if (sys_is_target(fd) && g_sys.read_eio_after >= 0) {
+        long room = g_sys.read_eio_after - g_sys.delivered;
+        if (room <= 0) { ++g_sys.fired_eio; errno = EIO; return -1; }
+        if ((long)n > room) n = (size_t)room;
+    }
+    long r = syscall(SYS_read, fd, buf, n);
+    if (r > 0 && sys_is_target(fd)) g_sys.delivered += r;
+    return r;
+}
+extern "C" int close(int fd) {
+    using namespace sim;
+    bool target = sys_is_target(fd);
+    long r = syscall(SYS_close, fd);
+    if (target) { g_sys.fd_cache = -1; if (g_sys.close_fails) { ++g_sys.fired_close; errno = EIO; return -1; } }
+    return (int)r;
+}
+#endif
